@@ -13,7 +13,7 @@ import (
 func TestMain(m *testing.M) { pbt.Main(m, "C11") }
 
 const massBalanceLimit = 1e-3 // the model's own solver tolerance (m^3)
-const sliver = 1.0 / 4096     // K6 predicate: root below this fraction of the initial bracket
+const convergenceLimit = 1e-8 // the model's own constant: the search stops when its trial points are this close (m^3/s)
 
 // ---------------------------------------------------------------------------
 // StorageRouting
@@ -122,11 +122,26 @@ func checkSR(c SRCase) (r pbt.Result) {
 			// balance; the pair then sits within the tolerance of the curve vertically: |S - S(Q)| <= limit)
 			res = math.Min(res, math.Abs(S[t]-c.sOfQ(Q[t])))
 			if res > 2*massBalanceLimit+1e-9*(1+Q[t]*c.DT+S[t]) {
-				// Known finding K6 (storage-routing-sliver): the 20-iteration search can stop short of its tolerance
+				// Known finding K6 (storage-routing-unconverged): the 20-iteration search can stop short of its tolerance
 				// when the root lies in the lowest sliver of the bracket [0, S_prev/dt + I + L] (steep S(q) near 0)
-				bracket := math.Max(prev, 0)/c.DT + I + L
 				avail := math.Max(prev, 0)/c.DT + I - E
-				if qS < bracket*sliver && c.M < 1 {
+				bracket := avail + L
+				// my own root of q*dt + S(q) = water held, by 200 bisections on [0, bracket]
+				held := prev + (I+L-E)*c.DT
+				lo, hi := 0.0, bracket
+				for it := 0; it < 200; it++ {
+					mid := 0.5 * (lo + hi)
+					if mid*c.DT+c.sOfQ(mid)-held > 0 {
+						hi = mid
+					} else {
+						lo = mid
+					}
+				}
+				qStar := hi
+				// the solver stops after 20 iterations or when its trial points are within 1e-8 m^3/s of each other;
+				// neither guarantees the tolerance where the residual is steeper than tolerance / step at the root
+				slope := c.DT + c.K*c.M*math.Pow(qStar, c.M-1)
+				if c.M < 1 && (slope*convergenceLimit > massBalanceLimit || slope*bracket/(1<<20) > massBalanceLimit) {
 					hitK6 = true
 				} else if L > 0 && math.Abs(Q[t]-avail) <= 1e-9*(1+avail) {
 					// Known finding K10 (storage-routing-drained-lateral): when the whole content of the reach leaves in
@@ -135,7 +150,7 @@ func checkSR(c SRCase) (r pbt.Result) {
 					hitK10 = true
 				} else {
 					r.Failf("step %d: storage %v and outflow %v do not satisfy S = k*Q^m + dead within the solver tolerance: the flow with that storage is %v, residual %g m^3 > 2*%g (k=%g m=%g dead=%g, root/bracket %g)",
-						t, S[t], Q[t], qS, res, massBalanceLimit, c.K, c.M, c.Dead, qS/bracket)
+						t, S[t], Q[t], qS, res, massBalanceLimit, c.K, c.M, c.Dead, qStar/bracket)
 					return
 				}
 			}
@@ -153,7 +168,7 @@ func checkSR(c SRCase) (r pbt.Result) {
 		r.Label("path:" + p)
 	}
 	if hitK6 {
-		r.Hit = append(r.Hit, "storage-routing-sliver")
+		r.Hit = append(r.Hit, "storage-routing-unconverged")
 	}
 	if hitK10 {
 		r.Hit = append(r.Hit, "storage-routing-drained-lateral")
